@@ -164,7 +164,7 @@ func forcedCases(thorough bool) []Case {
 
 func main() {
 	fl := lib.ParseFlags()
-	res := lib.NewResult("non-trivial = the execution contains a callback or a forced park AND at least 3 lock-ordered events (Enqueue/Dequeue bodies, loop peeks/pops); distinct = by (point, op[, op2]) for forced schedules, by hash of the observed event sequence for random histories")
+	res := lib.NewResult("non-trivial = the execution contains a callback or a forced park AND at least 3 lock-ordered events (Enqueue/Dequeue bodies, loop peeks/pops), or a queue-operation sequence of >= 3 operations; distinct = by (point, op[, op2]) for forced schedules, by hash of the observed event sequence for random histories and of the operation list for queue sequences. The run is NOT exhaustive as a whole (exhaustive=false): complete enumerations are the forced-schedule matrix (13 points x 18 ops; thorough: all triples), the close2 and time-domain processor scenarios, the queue sequences of length <= 4 over 8 operations, the time-domain triples, and the Remove family for 7 items (8 items: thorough only); the random histories, the random queue sequences and the model comparison of the Remove family are seeded samples")
 	defer func() {
 		verifhook.Set(nil)
 		res.Write(fl.Out)
@@ -264,7 +264,7 @@ func main() {
 	for _, c := range timeDomainCases() {
 		r.eval(c)
 	}
-	res.Exhaustive = true // over the (point, op) product
+	res.Exhaustive = false // the run mixes complete enumerations with seeded random families (see rule)
 	// 2. random multi-goroutine histories
 	n := 400
 	if thorough {
